@@ -334,6 +334,31 @@ pub fn run(ctx: &Ctx) -> i32 {
                 ("overlong-name", long),
                 ("empty-name", String::new()),
             ];
+            // a base file whose *name* is not UTF-8 (file names are bytes on this platform)
+            {
+                use std::os::unix::ffi::OsStringExt;
+                for (what, raw) in [("existing", b"bad\xff.s".to_vec()), ("missing", b"gone\xfe\xff.s".to_vec())] {
+                    let name = std::ffi::OsString::from_vec(raw);
+                    if what == "existing" {
+                        let _ = std::fs::write(sc.dir.join(&name), "main:\n    li a7, 10\n    ecall\n");
+                    }
+                    for mode in ["--compact", "--json"] {
+                        for (b, exe) in [("dev", &ctx.rva_checked), ("release", &ctx.rva_release)] {
+                            let args = vec!["lint".into(), mode.into(), name.clone()];
+                            let (run, _) = cli::run_measured_os(exe, &args, &sc.dir, 4 * 1024 * 1024, std::time::Duration::from_secs(10));
+                            acc.evaluations += 1;
+                            acc.count("non_utf8_file_names", 1);
+                            if run.timed_out || run.panicked() || run.signal.is_some() {
+                                acc.violation(
+                                    format!("C06|panic|cli|file-name-not-utf8"),
+                                    format!("`rva lint {mode}` ({b}) on an {what} file whose name is not UTF-8: code {:?} signal {:?} {}", run.code, run.signal, run.stderr.lines().take(2).collect::<Vec<_>>().join(" | ").chars().take(200).collect::<String>()),
+                                    json!({"class": "file-name-not-utf8", "build": b, "mode": mode, "name_bytes": name.clone().into_vec()}),
+                                );
+                            }
+                        }
+                    }
+                }
+            }
             for (what, path) in &specials {
                 let text = format!("main:\n    li a7, 10\n    ecall\n.include \"{path}\"\n");
                 sc.write("main.s", &text);
